@@ -103,6 +103,11 @@ class Tail:
             if isinstance(s, ast.If):
                 t = s.test
                 fact_t = fact_f = None
+                flip = {ast.Lt: ast.Gt, ast.Gt: ast.Lt, ast.LtE: ast.GtE, ast.GtE: ast.LtE}
+                if isinstance(t, ast.Compare) and len(t.ops) == 1 and isinstance(t.left, ast.Constant) and \
+                        t.left.value == 0 and type(t.ops[0]) in flip:
+                    # 0 > x  is  x < 0
+                    t = ast.Compare(left=t.comparators[0], ops=[flip[type(t.ops[0])]()], comparators=[t.left])
                 if isinstance(t, ast.Compare) and len(t.ops) == 1 and isinstance(t.comparators[0], ast.Constant) \
                         and t.comparators[0].value == 0:
                     m = self.ev(t.left, env)
